@@ -84,7 +84,7 @@ IO_METHODS = {"read", "readline", "readlines", "seek", "truncate"}
 
 
 class ExcAnalysis:
-    def __init__(self, prog: Program, registered: bool = True, inline=None, dispatch_scope=None, summaries: Dict[str, Set[str]] = None, extra_facts=None):
+    def __init__(self, prog: Program, registered: bool = True, inline=None, dispatch_scope=None, summaries: Dict[str, Set[str]] = None, extra_facts=None, int_index_means_sequence: bool = False, callsite_helpers=(), arith_total: bool = False):
         self.prog = prog
         self.registered = registered
         self.h = Hier(prog)
@@ -100,6 +100,9 @@ class ExcAnalysis:
         self.discharged: List[Tuple[str, str, str]] = []
         self.functions_analysed: Set[str] = set()
         self.recursion_hit = False
+        self.int_index_means_sequence = int_index_means_sequence
+        self.callsite_helpers = set(callsite_helpers)
+        self.arith_total = arith_total
         self.global_writes: List[Tuple[str, str, str]] = []
         self.while_loops: List[Tuple] = []
 
@@ -133,7 +136,20 @@ class ExcAnalysis:
             raise
         out: Dict[Tuple, Escape] = {}
 
+        site_calls = {e.d["site"]: e for e in res.events if e.kind == "call" and e.d.get("inlined")}
+
         def add(esc: Escape, e: Event):
+            if self.callsite_helpers and e.fn is not None and e.fn.name in self.callsite_helpers and not esc.chain:
+                # raised inside an inlined helper: attribute to the helper's call site in the analysed code
+                for f in e.ctx:
+                    if f[0] == "call" and f[1] in site_calls and site_calls[f[1]].d["callee"].name in self.callsite_helpers:
+                        ce = site_calls[f[1]]
+                        try:
+                            cons = ast.unparse(ce.node)
+                        except Exception:
+                            cons = esc.construct
+                        esc = Escape(esc.exc, ce.where, cons, ce.fn.qualname if ce.fn else esc.fn, esc.chain, esc.kind)
+                        break
             esc2 = self._filter(esc, e)
             if esc2 is not None and esc2.key() not in out:
                 out[esc2.key()] = esc2
@@ -181,7 +197,7 @@ class ExcAnalysis:
 
         def esc(exc, construct, kind="implicit"):
             # key constructs by the (normalised) source text of the raising expression: stable under unrelated edits
-            if kind == "implicit" and isinstance(e.node, ast.AST) and not isinstance(e.node, (ast.stmt,)) and e.kind in ("subscript", "mcall", "extcall", "op", "unpack"):
+            if kind == "implicit" and isinstance(e.node, ast.AST) and not isinstance(e.node, (ast.stmt,)) and e.kind in ("subscript", "mcall", "extcall", "op", "unpack", "mutate"):
                 try:
                     construct = ast.unparse(e.node)
                 except Exception:
@@ -195,6 +211,25 @@ class ExcAnalysis:
 
         if k == "raise":
             name = e.d.get("exc") or "?"
+            if e.d.get("guard") is not None and name == "AssertionError":
+                # `assert cond`: discharged when the path facts entail cond
+                g = ex.trace[e.d["guard"]]
+                self.sites_examined += 1
+                try:
+                    from .facts import Facts
+
+                    F = Facts(ex)
+                    F.add_event_facts(g)
+                    if F.entails_rel(rel(g.d["cond"], True), g):
+                        self.sites_discharged += 1
+                        return out
+                except RecursionError:
+                    pass
+                try:
+                    esc("AssertionError", ast.unparse(g.node).split("\n")[0], "explicit")
+                except Exception:
+                    esc("AssertionError", "assert", "explicit")
+                return out
             if e.d.get("reraise"):
                 # re-raise of what the handler caught: the caught classes themselves
                 for alt in name.split("|"):
@@ -296,7 +331,7 @@ class ExcAnalysis:
             return self._dyncall(ex, res, e, fn, out, esc)
         if k == "op":
             op = e.d.get("op")
-            if op in ("Mod", "FloorDiv", "Div"):
+            if op in ("Mod", "FloorDiv", "Div") and not self.arith_total:
                 a, b = e.d["args"]
                 tb = type_of(ex, unsnap(a))
                 if tb <= frozenset(["str", "bytes"]) and "?" not in tb:
@@ -335,6 +370,10 @@ class ExcAnalysis:
             return [] if self._index_safe(ex, base, idx, e) else ["IndexError"]
         if tb and "?" not in tb and all(t.startswith("obj:") for t in tb):
             return []  # user-defined __getitem__ is analysed as a call
+        if self.int_index_means_sequence:
+            ti = type_of(ex, idx)
+            if (ti <= frozenset(["int", "bool"]) and "?" not in ti) or idx.op in ("param", "loopvar", "loopexit", "index"):
+                return [] if self._index_safe(ex, base, idx, e) else ["IndexError"]
         # unknown shape: a lookup that may fail either way
         if self._index_safe(ex, base, idx, e) and is_const(idx) and isinstance(cval(idx), int):
             # safe as a sequence index; as a mapping lookup unknown
@@ -433,9 +472,24 @@ class ExcAnalysis:
         if is_const(idx) and isinstance(cval(idx), int):
             i = cval(idx)
             need = i + 1 if i >= 0 else -i
-            return self._len_lb(base, e) >= need
+            if self._len_lb(base, e) >= need:
+                return True
         if idx.op in ("index",):
             return True
+        # linear reasoning over the path facts (Fourier-Motzkin): 0 <= idx < len(base)
+        try:
+            from .facts import Facts
+
+            F = Facts(ex)
+            F.add_event_facts(e)
+            lb = mk("len", base)
+            if is_const(idx) and isinstance(cval(idx), int) and cval(idx) < 0:
+                if F.entails(mk("bin", "Add", lb, idx)):
+                    return True
+            elif F.entails(idx) and F.entails(mk("bin", "Sub", mk("bin", "Sub", lb, idx), C(1))):
+                return True
+        except RecursionError:
+            pass
         # index produced by iterating range(len(base))
         if idx.op == "elem":
             src = unsnap(idx.args[0])
